@@ -1266,7 +1266,11 @@ impl<'a> ParseState<'a, &'a str> {
             .copulas()
             .into_iter()
             // 是否有任意一个是「环境切片」的开头
-            .any(|copula| env_slice.starts_with_str(copula))
+            // * 🚩先验证长度：工具库的`starts_with_str`在「切片比系词短、且是其开头」时也返回`true`
+            //   * 📄如漢文词语`A将`位于输入末尾：`将`被误判为系词`将得`的开头，词项名被截断
+            .any(|copula| {
+                env_slice.len() >= copula.chars().count() && env_slice.starts_with_str(copula)
+            })
     }
 
     /// 消耗&置入/词项/原子
